@@ -16,3 +16,50 @@ for mod in [1, 2, 3, 5, 7, 8, 9, 15, 16, 17, 100, 127, 128, 129, 255, 256, 257, 
                   mutants=[dict(id="C19a", file="compatible/var_int.go", old="\tif mod.Cmp(&z.Int) <= 0 {", new="\tif mod.Cmp(&z.Int) < 0 {")] if mod in (7, 256) else []))
 json.dump(dict(property="C19", harnesses=H), open(os.path.join(os.path.dirname(__file__), "..", "specs", "C19.json"), "w"), indent=1)
 print(len(H))
+
+# ---- XOF wrappers (state machine over an arbitrary underlying XOF)
+HD = os.path.join(os.path.dirname(__file__), "..", "harness", "C19")
+src = open(os.path.join(HD, "xof_blake2xb.go")).read()
+xs = src.replace("package blake2xb", "package blake2xs").replace("golang.org/x/crypto/blake2b", "golang.org/x/crypto/blake2s").replace("blake2b.", "blake2s.")
+open(os.path.join(HD, "gen_xof_blake2xs.go"), "w").write("// Code generated from xof_blake2xb.go by gen/c19.py. DO NOT EDIT.\n" + xs)
+kc = src.replace("package blake2xb", "package keccak").replace('"golang.org/x/crypto/blake2b"', '"golang.org/x/crypto/sha3"')
+a, b = kc.index("// BEGIN-CTOR"), kc.index("// END-CTOR")
+kc = kc[:a] + '''func fakeNewShake() sha3.ShakeHash {
+	f := &fakeX{}
+	if fakeN < len(fakeMade) {
+		fakeMade[fakeN] = f
+	}
+	fakeN++
+	return f
+}
+
+func (f *fakeX) Sum(b []byte) []byte { return b }
+func (f *fakeX) Size() int           { return 64 }
+func (f *fakeX) BlockSize() int      { return 136 }
+
+''' + kc[b + len("// END-CTOR"):]
+kc = kc.replace("const fakeSize = blake2b.Size", "const fakeSize = 0").replace("blake2b.XOF", "sha3.ShakeHash").replace("xof{impl: f}", "xof{sh: f}").replace("x.impl", "x.sh").replace("y.impl", "y.sh")
+open(os.path.join(HD, "gen_xof_keccak.go"), "w").write("// Code generated from xof_blake2xb.go by gen/c19.py. DO NOT EDIT.\n" + kc)
+
+XH = []
+KL = [-1, 0, 1, 127, 128, 129, 300]
+for impl, pkg, f, ren in [
+    ("blake2xb", "./xof/blake2xb", "harness/C19/xof_blake2xb.go", {"golang.org/x/crypto/blake2b.NewXOF": "fakeNewXOF"}),
+    ("blake2xs", "./xof/blake2xs", "harness/C19/gen_xof_blake2xs.go", {"golang.org/x/crypto/blake2s.NewXOF": "fakeNewXOF"}),
+    ("keccak", "./xof/keccak", "harness/C19/gen_xof_keccak.go", {"golang.org/x/crypto/sha3.NewShake256": "fakeNewShake"})]:
+    stub = ["the underlying golang.org/x/crypto XOF -> fakeX: every output byte a fresh symbolic value, absorbed bytes, keys and operation counts recorded (the hash function itself is outside the claim)"]
+    def add(name, entry, params, fn, bound, quick):
+        XH.append(dict(name="xof-%s-%s" % (impl, name), pkg=pkg, files=[f], entry=entry, mode="bv", params=params, renames=ren, replay_entry=entry + "Replay", unwind=1024,
+                       functions=["%s.%s" % (impl, x) for x in fn], stubs=stub, bound=bound, tiers=(["quick", "thorough"] if quick else ["thorough"])))
+    for kl in KL:
+        add("Reseed-k%d" % kl, "HarnessXofReseed", {"p0": kl}, ["(*xof).Reseed", "(*xof).Read", "(*xof).Write", "New"], "scratch buffer of length %d (arbitrary contents) before the call; all stream bytes" % kl, True)
+        add("Clone-k%d" % kl, "HarnessXofClone", {"p0": kl}, ["(*xof).Clone", "(*xof).Read", "(*xof).Write", "(*xof).XORKeyStream", "(*xof).Reseed"], "scratch buffer of length %d; all stream bytes" % kl, kl in (-1, 0, 129))
+        for n in [0, 1, 127, 128, 129, 600]:
+            q = (kl, n) in [(-1, 0), (-1, 1), (-1, 129), (0, 1), (1, 1), (1, 0), (128, 129), (129, 128), (300, 1), (300, 600), (127, 128), (-1, 600)]
+            add("XOR-k%d-n%d" % (kl, n), "HarnessXofXOR", {"p0": kl, "p1": n}, ["(*xof).XORKeyStream", "(*xof).Read"], "scratch buffer length %d, len(src)=%d, dst == src or separate, all src and stream bytes" % (kl, n), q)
+    for sl in [0, 1, 31, 32, 33, 63, 64, 65, 128, 129, 300]:
+        add("NewReset-s%d" % sl, "HarnessXofNewReset", {"p0": sl}, ["New", "(*xof).Reset", "(*xof).Read", "(*xof).Write"], "seed length %d, all seed bytes" % sl, sl in (0, 1, 32, 33, 64, 65, 300))
+    for n in [0, 1, 600]:
+        add("ReadWrite-n%d" % n, "HarnessXofReadWrite", {"p0": -1, "p1": n}, ["(*xof).Read", "(*xof).Write"], "chunk length %d (Write capped at 400 recorded bytes)" % n, n == 1)
+json.dump(dict(property="C19", harnesses=XH), open(os.path.join(os.path.dirname(__file__), "..", "specs", "C19xof.json"), "w"), indent=1)
+print(len(XH))
